@@ -254,6 +254,8 @@ def l3(which, quick):
             R += [dict(backend=b, mode=LIST, nj=2, pre="2*n_jobs", bs=1, n=7, order="reverse"),
                   dict(backend=b, mode=GEN, nj=2, pre=4, bs=2, n=9, order=[3, 2, 0, 7]),
                   dict(backend=b, mode=LIST, nj=3, pre="all", bs=1, n=6, order=[2, 0, 1, 5, 4, 3])]
+            if b != "loky":
+                R += [dict(backend="legacy_" + b, mode=LIST, nj=2, pre="2*n_jobs", bs=1, n=7, order="reverse")]
             if not quick:
                 R += [dict(backend=b, mode=GEN, nj=2, pre="n_jobs", bs=1, n=8, order=[1, 0, 3, 2, 5, 4, 7, 6]), dict(backend=b, mode=LIST, nj=2, pre=6, bs=3, n=13, order="reverse"),
                       dict(backend=b, mode=LIST, nj=1, pre=2, bs=1, n=4, order="inorder")]
@@ -266,6 +268,8 @@ def l3(which, quick):
                 # terminates with an error and the object stays usable
                 R += [dict(backend=b, mode=LIST, nj=2, pre=4, bs=1, n=6, order="inorder", fail=[2], transport="result", calls=2, watchdog=25),
                       dict(backend=b, mode=LIST, nj=2, pre=4, bs=1, n=6, order="inorder", fail=[1], transport="exception", calls=2, watchdog=25)]
+            if b != "loky":
+                R += [dict(backend="legacy_" + b, mode=LIST, nj=2, pre=4, bs=1, n=8, order=[2, 3], fail=[2], calls=2)]
             if not quick:
                 R += [dict(backend=b, mode=LIST, nj=3, pre="all", bs=1, n=6, order=[2, 0, 1], fail=[4, 1], calls=3)]
         elif which == "C16":
@@ -278,4 +282,4 @@ def l3(which, quick):
                 R += [dict(backend=b, mode=UNORD, nj=3, pre=6, bs=2, n=12, order=[5, 4, 1, 0, 9, 8], closeat=3, calls=2)]
         elif which == "C09":
             R += [dict(backend=b, mode=LIST, nj=2, pre=4, bs=1, n=12, order="inorder"), dict(backend=b, mode=GEN, nj=2, pre="2*n_jobs", bs=1, n=12, order="reverse", fail=[1])]
-    return [r for r in R if not (r["backend"] == "multiprocessing" and r["mode"] != LIST)]     # MultiprocessingBackend does not support return_as generators
+    return [r for r in R if not (r["backend"].endswith("multiprocessing") and r["mode"] != LIST)]     # MultiprocessingBackend does not support return_as generators
